@@ -1,7 +1,9 @@
 (* C02/Extract.v — extraction of the executable model (ExtrOcamlBasic only; Z stays inductive) *)
 Require Extraction. Require ExtrOcamlBasic.
-From NV Require Import C02.Model C02.Tables.
+From NV Require Import C02.Model C02.Tables C02.ModelF C02.ModelQ.
 Extraction Language OCaml.
 Extraction "c02_model.ml" floor_log2 rne conv floor_exact ceil_exact shared_range int_abs wrap
   can_cast_ii make_writer_kind iu_decide set_slope_inter
-  all_fmts all_itys all_caps ok_floats best_float trunc_uint64 length.
+  all_fmts all_itys all_caps ok_floats best_float trunc_uint64 length
+  writer_write image_write apply_read_scaling calc_scale fconv f_of_Z frint fdiv fsub_ fadd fmul
+  array_to_file_q rint_q finite_range_f.
